@@ -19,6 +19,7 @@ class EffectDomain(DefaultDomain):
     exact_dicts = True
     exact_lists = True
     inline_contextmanagers = True
+    list_widening = 12
 
     def __init__(self, classes, attrs=None, track=None, results=None, raises=None, consts=True, inline=True, log_cap=12, lacks=(), oracle=None, ctors=(), track_stores=(), log_reads=()):
         self.classes = classes
@@ -509,6 +510,13 @@ class EffectDomain(DefaultDomain):
                 v = self.attrs.get(base)
                 if v is None and len(chain) == 2:
                     v = st.get(fr.local(chain[0]), None)
+                if v is None and len(chain) > 2:
+                    # a.b.c on a local wrapped object: resolve attribute by attribute through the environment
+                    v = st.get(fr.local(chain[0]), None) if st.has(fr.local(chain[0])) else self.attrs.get(chain[0])
+                    for name_ in chain[1:-1]:
+                        v = self.attrs.get(f"{v[1]}.{name_}") if isinstance(v, tuple) and v[:1] == ("wobj",) else None
+                        if v is None:
+                            break
                 if isinstance(v, tuple) and v[:1] == ("wobj",):
                     a = self.attrs.get(f"{v[1]}.{chain[-1]}")
                     return a if a is not None else ("bound", v[1], chain[-1])
@@ -692,6 +700,19 @@ class EffectDomain(DefaultDomain):
                     except Exception as e_:  # the concrete call raises: so does the code
                         folded.append(exc(("exc", type(e_).__name__), r.state))
                         continue
+                if fa.attr == "join" and pys[0][0] and isinstance(pys[0][1], str) and len(r.value) == 2 and isinstance(r.value[1], tuple) and r.value[1][:1] == ("tuple",) \
+                        and TOP not in r.value[1][1:]:
+                    # sep.join(<exact sequence with symbolic pieces>): the concatenation, kept piecewise
+                    parts = []
+                    for i_, el in enumerate(r.value[1][1:]):
+                        if i_ and pys[0][1]:
+                            parts.append(("const", pys[0][1]))
+                        if isinstance(el, tuple) and el[:1] == ("concat",):
+                            parts.extend(el[1:])
+                        else:
+                            parts.append(el)
+                    folded.append(val(("concat",) + tuple(parts), r.state))
+                    continue
                 undecided = True
             if not undecided:
                 return folded
